@@ -36,7 +36,7 @@ package cpusuppress
 //                  7 <node as in kind 6> thr hasMin minPct static sysKind S sys*S  K0 old*K0 initQuota  NP procs
 //                  P (lab kubeBE hasMetric k cpus*k)*P  H (qos base hasMetric)*H
 //                  N ops: 1 mode fail nodeU use*P use*H (mode 0 cpuset, 1 cfsQuota, 2 NodeSLO disables the feature;
-//                  fail: the metric cache refuses queries) | 2 value (somebody else rewrites cpu.cfs_quota_us)
+//                  fail: the metric cache refuses queries; a negative use = that pod does not exist in this round) | 2 value (somebody else rewrites cpu.cfs_quota_us)
 //                  obs after every step: cpuset.cpus of besteffort / pod / container dir as [len ids..], cpu.cfs_quota_us
 //  (kind 1: the hundreds digit of annoKind is the applyPolicy; kind 3: the hundreds digit of resKind is the applyPolicy.)
 
@@ -748,8 +748,13 @@ func vtC10Rounds(d *vtC10Rd) []int64 {
 			if smp, err := metriccache.NodeCPUUsageMetric.GenerateSample(nil, ts, float64(nodeU)/64); err == nil {
 				samples = append(samples, smp)
 			}
-			for _, p := range pods {
+			present := []*statesinformer.PodMeta{}
+			for i, p := range pods {
 				u := d.next()
+				if u < 0 { // the pod does not exist in this round
+					continue
+				}
+				present = append(present, metas[i])
 				if p.hasMetric {
 					if smp, err := metriccache.PodCPUUsageMetric.GenerateSample(metriccache.MetricPropertiesFunc.Pod(p.uid), ts, float64(u)/64); err == nil {
 						samples = append(samples, smp)
@@ -787,6 +792,7 @@ func vtC10Rounds(d *vtC10Rd) []int64 {
 				HostApplications: apps,
 			}}
 			mc.fail = fail != 0
+			si.pods = present
 			r.suppressBECPU()
 		} else {
 			v := d.next()
@@ -1470,6 +1476,22 @@ func vtC10GenRounds(r *rand.Rand) (string, []int64) {
 	capU := capM * 64 / 1000
 	nops := 2 + r.Intn(5)
 	in = append(in, int64(nops))
+	// the pod set changes between rounds: every pod has a life span [from, to) in rounds (mostly the whole history;
+	// otherwise it is deleted or created in between), and any pod may be missing from a single round
+	from := make([]int, np)
+	to := make([]int, np)
+	for i := 0; i < np; i++ {
+		from[i], to[i] = 0, nops
+		switch r.Intn(4) {
+		case 0:
+			to[i] = 1 + r.Intn(nops) // deleted after some rounds
+		case 1:
+			from[i] = r.Intn(nops) // created later
+		}
+	}
+	if np > 0 {
+		label += "-podchurn"
+	}
 	for k := 0; k < nops; k++ {
 		if r.Intn(8) == 0 {
 			v := int64(-1)
@@ -1496,6 +1518,9 @@ func vtC10GenRounds(r *rand.Rand) (string, []int64) {
 				counted = podHasMetric[i]
 			} else {
 				counted = hostHasMetric[i-np]
+			}
+			if i < np && (k < from[i] || k >= to[i] || r.Intn(12) == 0) {
+				u, counted = -1, false // the pod does not exist in this round
 			}
 			if counted {
 				sum += u
